@@ -1214,7 +1214,8 @@ func fetchPeerAuthentications(
 	// itself in the root namespace, these are already covered by the fetch above.
 	if rootNamespace := meshCfg.GetRootNamespace(); ns != rootNamespace {
 		rootAuths := peerAuthsByNs.Fetch(ctx, rootNamespace, krt.FilterGeneric(func(a any) bool {
-			return a.(*securityclient.PeerAuthentication).Spec.Selector == nil
+			// like everywhere else, a selector without labels is no selector
+			return len(a.(*securityclient.PeerAuthentication).Spec.GetSelector().GetMatchLabels()) == 0
 		}))
 		auths = append(auths, rootAuths...)
 	}
